@@ -10,6 +10,7 @@ VARIABLE l
 tvars == <<vars, l>>
 E == TraceLog[l]
 Range(s) == {s[i] : i \in DOMAIN s}
+Pairs(s) == {<<p[1], p[2]>> : p \in Range(s)}
 Cur(ev) == l <= Len(TraceLog) /\ E.ev = ev /\ l' = l + 1
 StMatch(st) == /\ topics' = DOMAIN st.topics
                /\ \A t \in topics' : nparts'[t] = st.topics[t]
@@ -20,14 +21,15 @@ TReset == /\ Cur("Reset") /\ E.leasing = Leasing
           /\ topics' = Known /\ nparts' = [t \in Topics |-> IF t \in Known THEN NP ELSE 0]
           /\ recs' = [x \in TP |-> 0] /\ opened' = {} /\ health' = "healthy" /\ storeUp' = TRUE
           /\ etcdOwner' = [x \in TP |-> ""] /\ aOwns' = {} /\ closed' = FALSE /\ leaseDown' = FALSE
-          /\ last' = [api |-> "init", perms |-> {}, leasing |-> Leasing, storeUp |-> TRUE, leaseUp |-> TRUE, items |-> <<>>, changed |-> {}]
+          /\ sessDead' = FALSE /\ monParked' = FALSE
+          /\ last' = [api |-> "init", perms |-> Acl({}, {}, FALSE), leasing |-> Leasing, storeUp |-> TRUE, leaseUp |-> TRUE, items |-> <<>>, changed |-> {}]
           /\ nreq' = 0 /\ nenv' = 0 /\ done' = FALSE /\ hist' = <<>>
           /\ StMatch(E.st)
 ItemMatch(m, r) == /\ m.name = r.name /\ m.part = r.part /\ r.replied
                    /\ IF m.code = Backend THEN r.code \notin {29, 30, 31} ELSE m.code = r.code
                    /\ m.data = r.data /\ m.owner0 = r.owner0 /\ m.owns1 = r.owns1 /\ m.owner1 = r.owner1
 TReq == /\ Cur("Req")
-        /\ Req(E.mapi, E.tg, {<<p[1], p[2]>> : p \in Range(E.perms)})
+        /\ Req(E.mapi, E.tg, Acl(Pairs(E.perms.allow), Pairs(E.perms.deny), E.perms.dflt))
         /\ health = E.health /\ storeUp = E.storeUp
         /\ Len(last'.items) = Len(E.items)
         /\ \A i \in DOMAIN E.items : ItemMatch(last'.items[i], E.items[i])
@@ -38,8 +40,10 @@ TSetStore == Cur("SetStore") /\ SetStore(E.arg = "up")
 TForeign == Cur("ForeignAcquire") /\ E.owner = "B" /\ \E i \in 1..NPart : ToString(i) = E.arg /\ ForeignAcquire(i)
 TClose == Cur("CloseLease") /\ CloseLease
 TLeaseDown == Cur("LeaseDown") /\ LeaseDown
+TSessionExpire == Cur("SessionExpire") /\ SessionExpire
+TMonitorRun == Cur("MonitorRun") /\ MonitorRun
 Consumed == TLCSet(7, IF TLCGet(7) < l THEN l ELSE TLCGet(7))
-TNext == (TReset \/ TReq \/ TSetHealth \/ TSetStore \/ TForeign \/ TClose \/ TLeaseDown) /\ Consumed
+TNext == (TReset \/ TReq \/ TSetHealth \/ TSetStore \/ TForeign \/ TClose \/ TLeaseDown \/ TSessionExpire \/ TMonitorRun) /\ Consumed
 TSpec == TInit /\ [][TNext]_tvars
 Reached == PrintT(<<"CONF", ToJson([reached |-> TLCGet(7), total |-> Len(TraceLog)])>>)
 ====
